@@ -21,6 +21,14 @@ jar/parent/BOM kinds, parents, import-scoped BOMs, managed versions/scopes/optio
 serving different artifacts (sometimes a decoy copy in another repository), timestamped snapshot versions, root lists of 0..4 coordinates with duplicates; \
 served as XML through an in-memory Downloader to get_maven_dependencies and compared with an independent reference resolver (documented rules: \
 inheritance, in-place BOM import, managed fill-in, optional/non-transitive cut, scope table, nearest-wins mediation by (depth, declaration) order). \
+Every universe may carry edges that must be cut BEFORE resolution (optional or test/provided/system scope, declared or filled in from \
+dependencyManagement / a parent / an imported BOM) pointing at artifacts with no document anywhere, a document only in a repository that is not among the resolvers, \
+an undeserialisable document, a wrong modelVersion, a POM with a missing or non-pom parent or an unmanaged version-less dependency (stream cut-before-resolution: \
+every cut x every target x two depths, plus followed-edge controls); the same artifact under two (type, classifier) pairs sharing or not sharing a file extension \
+(stream type-pairs: all pairs of 16); stream mediation: plain POMs, 3..6 artifacts in 1..3 versions with dense dependencies and 2..4 roots naming other versions of \
+artifacts deep inside other roots' trees, kept when a rival with a subtree is discarded; a third of the documents is rendered as realistic XML (XML declaration, xmlns/xsi attributes, comments, CRLF and indentation, \
+padded and CDATA values, children in any order, relativePath, name/description/licenses/scm/properties/build-with-plugin-dependencies/repositories/modules, empty \
+<dependencies/> and <dependencyManagement/> elements). Universes in which an imported BOM and an inherited managed entry disagree are classified, not judged. \
 Separate streams violate each hypothesis (imports before managed entries, child re-declaring a parent's dependency, missing POMs/versions, \
 non-pom parents, undeserialisable XML, cyclic universes under a download budget) and are compared with the model only. \
 Exhaustive 5x5(+5 omitted) scope-table universes. Forest::breadth_first_retain/breadth_first on random forests of integers with three stateful \
@@ -31,6 +39,10 @@ A resolve case is non-trivial when the result has at least 2 dependencies; disti
 	let n_resolve = if ctx.thorough { 8000 } else { 900 };
 	resolve::generated_cases(&mut r, &mut rng.fork(1), n_resolve)?;
 	resolve::documented_examples(&mut r)?;
+	resolve::cut_cases(&mut r)?;
+	resolve::type_pair_cases(&mut r)?;
+	resolve::mediation_cases(&mut r, &mut rng.fork(4), if ctx.thorough { 3000 } else { 300 })?;
+	r.notes.push(format!("stack of the harness thread: {} MiB (deep async recursion of the crate on cyclic universes, stopped by a download budget of 400)", STACK_MIB.load(std::sync::atomic::Ordering::SeqCst)));
 	let n_tree = if ctx.thorough { 3000 } else { 500 };
 	trees::cases(&mut r, &mut rng.fork(2), n_tree);
 	let n_coord = if ctx.thorough { 4000 } else { 700 };
@@ -47,8 +59,18 @@ A resolve case is non-trivial when the result has at least 2 dependencies; disti
 	Ok(r)
 }
 
+static STACK_MIB: std::sync::atomic::AtomicUsize = std::sync::atomic::AtomicUsize::new(0);
+
 fn main() -> anyhow::Result<()> {
-	// deep async recursion on cyclic universes (stopped by the download budget) needs stack
-	let h = std::thread::Builder::new().stack_size(1 << 30).spawn(|| fbh::main_with(run))?;
-	match h.join() { Ok(x) => x, Err(_) => anyhow::bail!("harness thread panicked") }
+	// deep async recursion on cyclic universes (stopped by the download budget) needs stack; a machine that cannot
+	// reserve the large stack gets a smaller one (recorded in the evidence) instead of a harness error
+	for mib in [1024usize, 512, 256, 128] {
+		STACK_MIB.store(mib, std::sync::atomic::Ordering::SeqCst);
+		match std::thread::Builder::new().stack_size(mib << 20).spawn(|| fbh::main_with(run)) {
+			Ok(h) => return match h.join() { Ok(x) => x, Err(_) => anyhow::bail!("harness thread panicked") },
+			Err(_) => continue,
+		}
+	}
+	STACK_MIB.store(0, std::sync::atomic::Ordering::SeqCst);
+	fbh::main_with(run)
 }
